@@ -285,6 +285,7 @@ def gen_filter_spec(rng, allow_none=True):
 
 
 CUSTOM_FILTERS = ["custom_keep_last", "custom_machine0", "custom_latest_start"]
+HOLDING_FILTER = "custom_hold_last_job"  # only where an empty available list is expected
 
 
 def custom_filter(name):
@@ -304,6 +305,18 @@ def custom_filter(name):
             best = max(dispatcher.earliest_start_time(op) for op in operations)
             return [op for op in operations if dispatcher.earliest_start_time(op) == best]
         return latest
+    if name == HOLDING_FILTER:
+        # may legitimately answer [] (also for a single candidate): the last job is held back
+        # until every other job is finished
+        def hold_last_job(dispatcher, operations):
+            last = dispatcher.instance.num_jobs - 1
+            others_left = any(
+                dispatcher.job_next_operation_index[j] < len(dispatcher.instance.jobs[j])
+                for j in range(last))
+            if not others_left:
+                return operations
+            return [op for op in operations if op.job_id != last]
+        return hold_last_job
     raise ValueError(name)
 
 
@@ -311,7 +324,7 @@ def make_filter(spec):
     """Builds the real filter callable for a spec."""
     if spec is None:
         return None
-    if spec["names"][0].startswith("custom_"):
+    if any(n.startswith("custom_") for n in spec["names"]):
         from job_shop_lib.dispatching import create_composite_operation_filter
         fs = [custom_filter(n) if n.startswith("custom_") else n for n in spec["names"]]
         return fs[0] if len(fs) == 1 else create_composite_operation_filter(fs)
